@@ -23,14 +23,21 @@ RULE = ("A: case = (knob-quantizer configuration incl. use_ste, float32 tensor, 
         "update_qnoise_factor on a float-backed instance, update on a "
         "tf.Variable-backed instance). Non-trivial = some element is changed by "
         "quantization (quantized != surrogate) and some factor lies strictly "
-        "inside (0,1). B: case = (configuration, tensor, history of "
-        "call/update(float|np.float32|np.float64|tf constant|tf.Variable)/build(use_variables)"
+        "inside (0,1). B: case = (configuration, tensor, two quantizers, history of "
+        "call/update(float|np.float32|np.float64|tf constant|fresh tf.Variable|"
+        "caller-owned pool tf.Variable)/owner re-assigns a pool variable/"
+        "build(use_variables)"
         "/scheduler.set_quantizers/get_config round trip, all six classes); non-trivial = the "
         "history contains an update that follows a variable-creating build. "
         "C: case = (list of layer descriptions, scheduler arguments, history of "
         "callback hooks and forward calls); non-trivial = the model has a knob "
         "quantizer and an update step strictly between start and finish was "
-        "applied. Distinct by hash of the whole case description.")
+        "applied. D: case = (tiny Sequential of QDense/QActivation with seeded "
+        "constant weights, built lazily by fit() or pre-built with an InputLayer, "
+        "scheduler arguments, epochs x steps); one graph-mode model.fit with "
+        "learning rate 0; non-trivial = the model output depends on the factor "
+        "and the prescribed factor changes after the first training step. "
+        "Distinct by hash of the whole case description.")
 ASSUMPTIONS = [
     "checks run under TF_USE_LEGACY_KERAS=1 (tf_keras), float32, eager, "
     "learning phase 0 (stochastic rounding off)",
@@ -64,6 +71,12 @@ ASSUMPTIONS = [
     "passes are not part of the reference",
     "between start and finish the factor must equal 1-((finish-p)/(finish-"
     "start))^exponent within 1e-9 (cited paper + tests/callbacks_test.py)",
+    "Part D: the output a probe layer records inside the compiled training "
+    "step must equal the eager model output with every knob quantizer set to "
+    "the prescribed factor within 1e-5+1e-5*|y| (measured: bit-identical, "
+    "label D:maxdiff<=1e-6); inputs are generic floats so that no "
+    "pre-activation sits on a rounding tie; quantizers passed as activation= "
+    "(C07-KF2) are not used in Part D models",
     "after a get_config round trip the rebuilt quantizer is held to the "
     "references of the original configuration (same 4 ulp), and a later update "
     "of the discarded original must not change it",
@@ -74,11 +87,17 @@ REQUIRED_LABELS = {
               "A:var_ctor", "A:var_rebuild", "A:hyp",
               "B", "B:update_after_var_build", "B:roundtrip",
               "B:set_quantizers", "B:kind_tf", "B:kind_np32", "B:kind_tfvar",
+              "B:two_quantizers", "B:kind_pool", "B:pool_update_float_backed",
+              "B:pool_reassigned_after_feed", "B:pool_shared_by_siblings",
+              "B:sibling_update_after_shared",
               "B:quantized_linear", "B:quantized_hswish",
               "C", "C:epoch", "C:step", "C:between", "C:before_start",
               "C:from_finish", "C:nonupdate_step", "C:has_nonknob",
               "C:has_singular", "C:prebuilt", "C:forward_checked",
-              "C:has_quantized_linear", "C:has_act_quantizer"],
+              "C:has_quantized_linear", "C:has_act_quantizer",
+              "D", "D:lazy", "D:prebuilt", "D:step", "D:epoch",
+              "D:graph_mode", "D:sensitive",
+              "D:factor_changes_after_first_step"],
 }
 REQUIRED_LABELS["thorough"] = REQUIRED_LABELS["quick"]
 
@@ -317,9 +336,17 @@ def run_a(ctx):
 
 
 class QuantSim(object):
-  """Executes a Part-B history on the real quantizer next to a model float."""
+  """Executes a Part-B history on real quantizers next to model floats.
+
+  State: one or two quantizers of the same configuration (init["second"]),
+  and a pool of tf.Variables owned by the *caller* (init["pool"]) that carry
+  values into update_qnoise_factor.  The model of a quantizer's factor is the
+  value last set THROUGH ITS OWN update API (or constructor/set_quantizers);
+  assignments the owner makes to a pool variable afterwards, and updates of
+  the sibling quantizer, must not change it."""
 
   def __init__(self, init):
+    import tensorflow as tf  # pylint: disable=g-import-not-at-top
     core.reset_globals()
     self.init = init
     cfg = self.cfg = init["cfg"]
@@ -331,12 +358,22 @@ class QuantSim(object):
     else:
       self.xq = G.call(G.build(cfg, qnoise_factor=1.0), self.x)
     self.ok = _finite(self.s) & _finite(self.xq)
-    self.f = init["f0"]
-    self.q = G.build(cfg, qnoise_factor=init["f0"],
-                     use_variables=bool(init["use_variables"]))
-    self.var_pending = bool(init["use_variables"])   # variable at first call
-    self.var_built = False
+    starts = [{"f0": init["f0"], "use_variables": init["use_variables"]}]
+    if init.get("second"):
+      starts.append(init["second"])
+    self.qs = [G.build(cfg, qnoise_factor=st["f0"],
+                       use_variables=bool(st["use_variables"]))
+               for st in starts]
+    self.fs = [st["f0"] for st in starts]
+    self.var_pending = [bool(st["use_variables"]) for st in starts]
+    self.var_built = [False for _ in starts]
+    self.pool_model = [float(np.float32(v)) for v in init.get("pool", [])]
+    self.pool = [tf.Variable(v, dtype=tf.float32, trainable=False)
+                 for v in self.pool_model]
+    self.fed = [set() for _ in self.pool]   # quantizers fed from pool var k
     self.labels = set(["B", "B:" + cfg["cls"]])
+    if len(self.qs) > 1:
+      self.labels.add("B:two_quantizers")
     self.nontrivial = False
     self.worst = 0.0
 
@@ -352,56 +389,88 @@ class QuantSim(object):
       return tf.Variable(f, dtype=tf.float32, trainable=False)
     return tf.constant(f, dtype=tf.float32)
 
+  def _is_var(self, qi):
+    import tensorflow as tf  # pylint: disable=g-import-not-at-top
+    return isinstance(self.qs[qi].qnoise_factor, tf.Variable)
+
   def step(self, op):
     fails = []
     name = op["op"]
+    qi = op.get("q", 0)
+    if qi >= len(self.qs):
+      raise core.HarnessError("no quantizer %d in %r" % (qi, op))
     sig0 = dict(self.base, op=name)
     if name == "update":
       sig0["kind"] = op["kind"]
+    touched = qi
     try:
       if name == "call":
         pass
+      elif name == "pool_assign":
+        # the owner re-uses its variable; no quantizer API is involved
+        touched = None
+        k = op["var"]
+        self.pool[k].assign(op["f"])
+        self.pool_model[k] = float(np.float32(op["f"]))
+        if self.fed[k]:
+          self.labels.add("B:pool_reassigned_after_feed")
+      elif name == "update" and op["kind"] == "pool":
+        k = op["var"]
+        if not self._is_var(qi):           # observed for the label only
+          self.labels.add("B:pool_update_float_backed")
+        if self.fed[k] - {qi}:
+          self.labels.add("B:pool_shared_by_siblings")
+        self.qs[qi].update_qnoise_factor(self.pool[k])
+        self.fs[qi] = self.pool_model[k]
+        self.fed[k].add(qi)
+        self.labels.add("B:kind_pool")
       elif name == "update":
-        self.q.update_qnoise_factor(self._value(op["f"], op["kind"]))
-        self.f = op["f"]
+        if any(qi in fed and (fed - {qi}) for fed in self.fed):
+          self.labels.add("B:sibling_update_after_shared")
+        self.qs[qi].update_qnoise_factor(self._value(op["f"], op["kind"]))
+        self.fs[qi] = op["f"]
         self.labels.add("B:kind_" + op["kind"])
-        if self.var_built:
+        if self.var_built[qi]:
           self.labels.add("B:update_after_var_build")
           self.nontrivial = True
       elif name == "build":
-        self.q.build(use_variables=bool(op["use_variables"]))
+        self.qs[qi].build(use_variables=bool(op["use_variables"]))
         if op["use_variables"]:
-          self.var_built = True
+          self.var_built[qi] = True
           self.labels.add("B:build_var")
         else:
           self.labels.add("B:build_float")
       elif name == "set_quantizers":
         from qkeras.callbacks import QNoiseScheduler  # pylint: disable=g-import-not-at-top
         cb = QNoiseScheduler(start=1, finish=2, use_ste=bool(op["use_ste"]))
-        cb.quantizers = [self.q]
+        cb.quantizers = [self.qs[qi]]
         cb.set_quantizers()
-        self.f = 0.0        # "Set the qnoise_factor to 0.0 to pretrain"
-        self.var_pending = True
+        self.fs[qi] = 0.0     # "Set the qnoise_factor to 0.0 to pretrain"
+        self.var_pending[qi] = True
         self.labels.add("B:set_quantizers")
-        if G.has_ste(self.cfg) and bool(self.q.use_ste) != bool(op["use_ste"]):
+        if G.has_ste(self.cfg) and \
+            bool(self.qs[qi].use_ste) != bool(op["use_ste"]):
           fails.append(("use_ste_propagated", dict(self.base),
                         "scheduler use_ste=%r quantizer.use_ste=%r" % (
-                            op["use_ste"], self.q.use_ste)))
+                            op["use_ste"], self.qs[qi].use_ste)))
       elif name == "roundtrip":
-        old_q = self.q
-        self.q = type(self.q).from_config(self.q.get_config())
+        old_q = self.qs[qi]
+        self.qs[qi] = type(old_q).from_config(old_q.get_config())
         self.labels.add("B:roundtrip")
         # The rebuilt quantizer must carry the factor AND behave like the
         # original for every later factor: the references (surrogate and
         # quantized value of the ORIGINAL configuration) are kept, so an
         # option lost by get_config that changes the output shows up here.
         # use_variables is not part of the config: float-backed again.
-        self.var_pending = False
-        self.var_built = False
+        self.var_pending[qi] = False
+        self.var_built[qi] = False
         # the rebuilt quantizer owns its factor: moving the discarded
-        # original must not move it
+        # original must not move it (skipped if the discarded object holds
+        # one of the caller's variables, which only a defect can cause and
+        # which the pool invariants below report on their own)
         try:
-          old_q.update_qnoise_factor(1.0 if self.f < 0.5 else 0.0)
+          if not any(old_q.qnoise_factor is v for v in self.pool):
+            old_q.update_qnoise_factor(1.0 if self.fs[qi] < 0.5 else 0.0)
         except Exception:  # pylint: disable=broad-except
           pass
       else:
@@ -415,43 +484,58 @@ class QuantSim(object):
       fails.append(("op_raises", sig, repr(e)[:300]))
       return fails
 
-    # invariants after every step
-    try:
-      rb = float(self.q.qnoise_factor)
-      y = G.call(self.q, self.x)
-    except Exception as e:  # pylint: disable=broad-except
-      fails.append(("op_raises", dict(core.exc_signature(e), op="call_after_" +
-                                      name, **self.base), repr(e)[:300]))
-      return fails
-    if self.var_pending:
-      self.var_built = True     # first call builds with use_variables=True
-      self.var_pending = False
-    if not R.same_factor(rb, self.f):
-      fails.append(("readback", dict(self.base, after=name),
-                    "model factor %r stored %r" % (self.f, rb)))
-    err, ref = R.interp_err_ulp(y, self.s, self.xq, self.f)
-    e = np.where(self.ok, err, 0.0)
-    e = np.where(self.ok & np.isnan(y), np.inf, e)
-    m = float(e.max()) if e.size else 0.0
-    if m > R.TOL_ULP:
-      i = int(np.argmax(e.reshape(-1)))
-      fails.append(("history_output", dict(self.base, after=name,
-                                           f=_fclass(self.f)),
-                    "model f=%r x=%r got=%r want=%r err=%.3g ulp" % (
-                        self.f, self.x.reshape(-1)[i], y.reshape(-1)[i],
-                        ref.reshape(-1)[i], m)))
-    else:
-      self.worst = max(self.worst, m)
-    if self.f == 0 and (self.ok & (y != self.s)).any():
-      fails.append(("history_output", dict(self.base, after=name, f="zero",
-                                           end="f0"),
-                    "f=0 does not return the surrogate exactly"))
+    # invariants after every step, for every quantizer
+    for j, q in enumerate(self.qs):
+      f = self.fs[j]
+      who = dict(self.base, after=name)
+      if j != touched:
+        who["bystander"] = True    # this quantizer's API was not used
+      try:
+        rb = float(q.qnoise_factor)
+        y = G.call(q, self.x)
+      except Exception as e:  # pylint: disable=broad-except
+        fails.append(("op_raises", dict(core.exc_signature(e),
+                                        op="call_after_" + name, **self.base),
+                      repr(e)[:300]))
+        continue
+      if self.var_pending[j]:
+        self.var_built[j] = True   # first call builds with use_variables=True
+        self.var_pending[j] = False
+      if not R.same_factor(rb, f):
+        fails.append(("readback", dict(who),
+                      "quantizer %d: factor last set through its API %r, "
+                      "stored %r" % (j, f, rb)))
+      err, ref = R.interp_err_ulp(y, self.s, self.xq, f)
+      e = np.where(self.ok, err, 0.0)
+      e = np.where(self.ok & np.isnan(y), np.inf, e)
+      m = float(e.max()) if e.size else 0.0
+      if m > R.TOL_ULP:
+        i = int(np.argmax(e.reshape(-1)))
+        fails.append(("history_output", dict(who, f=_fclass(f)),
+                      "quantizer %d: model f=%r x=%r got=%r want=%r err=%.3g "
+                      "ulp" % (j, f, self.x.reshape(-1)[i], y.reshape(-1)[i],
+                               ref.reshape(-1)[i], m)))
+      else:
+        self.worst = max(self.worst, m)
+      if f == 0 and (self.ok & (y != self.s)).any():
+        fails.append(("history_output", dict(who, f="zero", end="f0"),
+                      "f=0 does not return the surrogate exactly"))
+    # the caller's variables are only ever written by the caller
+    for k, v in enumerate(self.pool):
+      got = float(v.numpy())
+      if got != self.pool_model[k]:
+        fails.append(("pool_variable_written", dict(self.base, after=name),
+                      "caller's variable %d holds %r, its owner last assigned "
+                      "%r" % (k, got, self.pool_model[k])))
+        self.pool_model[k] = got
     return fails
 
 
 def make_machine_b(ctx, cfgs):
   from hypothesis import strategies as st  # pylint: disable=g-import-not-at-top
   from hypothesis.stateful import RuleBasedStateMachine, initialize, rule  # pylint: disable=g-import-not-at-top
+
+  qidx = st.sampled_from([0, 0, 1])
 
   class MachineB(RuleBasedStateMachine):
 
@@ -472,32 +556,44 @@ def make_machine_b(ctx, cfgs):
         ctx.report(sc, sig, self.case(), d)
 
     @initialize(cfg=st.sampled_from(cfgs), t=G.tensor_strategy(12),
-                f0=G.f_strategy(), uv=st.booleans())
-    def start(self, cfg, t, f0, uv):
+                f0=G.f_strategy(), uv=st.booleans(), f0b=G.f_strategy(),
+                uvb=st.sampled_from([False, False, True]))
+    def start(self, cfg, t, f0, uv, f0b, uvb):
       if self.skip:
         return
       self.sim = QuantSim({"cfg": cfg, "xs": t["xs"], "shape": t["shape"],
-                           "f0": f0, "use_variables": uv})
+                           "f0": f0, "use_variables": uv,
+                           "second": {"f0": f0b, "use_variables": uvb},
+                           "pool": [0.5, 0.5]})
 
     @rule()
     def call(self):
       self.do({"op": "call"})
 
-    @rule(f=G.f_strategy(), kind=st.sampled_from(["py", "np32", "np64", "tf", "tfvar"]))
-    def update(self, f, kind):
-      self.do({"op": "update", "f": f, "kind": kind})
+    @rule(q=qidx, f=G.f_strategy(),
+          kind=st.sampled_from(["py", "np32", "np64", "tf", "tfvar"]))
+    def update(self, q, f, kind):
+      self.do({"op": "update", "q": q, "f": f, "kind": kind})
 
-    @rule(uv=st.booleans())
-    def build(self, uv):
-      self.do({"op": "build", "use_variables": uv})
+    @rule(q=st.sampled_from([0, 1]), k=st.sampled_from([0, 0, 1]))
+    def update_from_pool(self, q, k):
+      self.do({"op": "update", "q": q, "kind": "pool", "var": k})
 
-    @rule(ste=st.booleans())
-    def set_quantizers(self, ste):
-      self.do({"op": "set_quantizers", "use_ste": ste})
+    @rule(k=st.sampled_from([0, 0, 1]), f=G.f_strategy())
+    def owner_reassigns(self, k, f):
+      self.do({"op": "pool_assign", "var": k, "f": f})
 
-    @rule()
-    def roundtrip(self):
-      self.do({"op": "roundtrip"})
+    @rule(q=qidx, uv=st.booleans())
+    def build(self, q, uv):
+      self.do({"op": "build", "q": q, "use_variables": uv})
+
+    @rule(q=qidx, ste=st.booleans())
+    def set_quantizers(self, q, ste):
+      self.do({"op": "set_quantizers", "q": q, "use_ste": ste})
+
+    @rule(q=qidx)
+    def roundtrip(self, q):
+      self.do({"op": "roundtrip", "q": q})
 
     def teardown(self):
       if self.skip:
@@ -880,6 +976,168 @@ def replay_c(ctx, case):
 # ===========================================================================
 
 
+# ===========================================================================
+# Part D: the real Keras protocol (model.fit, compiled train step)
+
+_PROBE = {}
+
+
+def _probe_cls():
+  """Stock-Keras layer that stores its input in a variable: the observable is
+  written by the compiled training step itself."""
+  if "cls" not in _PROBE:
+    import tensorflow as tf  # pylint: disable=g-import-not-at-top
+
+    class Probe(tf.keras.layers.Layer):
+
+      def __init__(self, shape):
+        super().__init__()
+        self.last = tf.Variable(tf.zeros(shape, tf.float32), trainable=False)
+        self.count = tf.Variable(0, trainable=False, dtype=tf.int64)
+
+      def call(self, inputs):
+        self.last.assign(inputs)
+        self.count.assign_add(1)
+        return inputs
+
+    _PROBE["cls"] = Probe
+  return _PROBE["cls"]
+
+
+def prescribed_factors(sp, epochs, steps_per_epoch):
+  """Factor the documented schedule prescribes for every training step of a
+  fit() that starts with a fresh callback (0.0 until the first update step:
+  'Set the qnoise_factor to 0.0 to pretrain without quantization')."""
+  out = []
+  last = 0.0
+  pos = sp["initial_step_or_epoch"]
+  for _ in range(epochs):
+    if sp["freq_type"] == "epoch":
+      if pos % sp["update_freq"] == 0:
+        last = R.sched_ref(sp["start"], sp["finish"], sp["exponent"], pos)
+      pos += 1
+    for _ in range(steps_per_epoch):
+      if sp["freq_type"] == "step":
+        if pos % sp["update_freq"] == 0:
+          last = R.sched_ref(sp["start"], sp["finish"], sp["exponent"], pos)
+        pos += 1
+      out.append(last)
+  return out
+
+
+def oracle_d(ctx, case):
+  """One model.fit in graph mode with learning rate 0: the output of training
+  step k, as computed inside the compiled step, must be the model output for
+  the factor the schedule prescribes at step k."""
+  import tensorflow as tf  # pylint: disable=g-import-not-at-top
+  from qkeras.callbacks import QNoiseScheduler  # pylint: disable=g-import-not-at-top
+  core.reset_globals()
+  sp = case["sched"]
+  fails = []
+  labels = ["D", "D:lazy" if case["lazy"] else "D:prebuilt",
+            "D:" + sp["freq_type"]]
+  base = {"lazy": bool(case["lazy"]), "freq_type": sp["freq_type"]}
+  x = G.fit_data(case["seed"])
+  n_steps = case["epochs"] * case["steps_per_epoch"]
+  want_f = prescribed_factors(sp, case["epochs"], case["steps_per_epoch"])
+  if len(set(want_f[1:])) > 1 or (want_f and want_f[-1] != want_f[0]):
+    labels.append("D:factor_changes_after_first_step")
+
+  def done(nontrivial=False):
+    ctx.tick(case, labels=labels, nontrivial=nontrivial)
+    return fails
+
+  seen = []
+  try:
+    model, probe, width = G.build_fit_model(case, _probe_cls())
+    model.compile(optimizer=tf.keras.optimizers.SGD(0.0),
+                  loss=lambda yt, yp: tf.reduce_mean(tf.square(yp)))
+    if not model.run_eagerly and not tf.config.functions_run_eagerly():
+      labels.append("D:graph_mode")
+    cb = QNoiseScheduler(
+        start=sp["start"], finish=sp["finish"], freq_type=sp["freq_type"],
+        update_freq=sp["update_freq"],
+        initial_step_or_epoch=sp["initial_step_or_epoch"],
+        exponent=sp["exponent"], use_ste=sp["use_ste"])
+    rec = tf.keras.callbacks.LambdaCallback(
+        on_train_batch_end=lambda b, logs: seen.append(
+            (int(probe.count.numpy()), np.array(probe.last.numpy()))))
+    xs = np.tile(x, (case["steps_per_epoch"], 1))
+    ys = np.zeros((xs.shape[0], width), np.float32)
+    model.fit(xs, ys, batch_size=G.FIT_BATCH, epochs=case["epochs"],
+              shuffle=False, verbose=0, callbacks=[cb, rec])
+  except Exception as e:  # pylint: disable=broad-except
+    fails.append(("fit_raises", dict(core.exc_signature(e), **base),
+                  repr(e)[:300]))
+    return done()
+  if len(seen) != n_steps:
+    raise core.HarnessError("recorded %d steps, expected %d" % (len(seen),
+                                                               n_steps))
+
+  # the model's knob quantizers, enumerated from the description
+  knob = []
+  for spec, layer in zip(case["layers"], [l for l in model.layers
+                                          if not isinstance(l, _probe_cls())]):
+    for slot, key in (("kernel_quantizer_internal", "kq"),
+                      ("bias_quantizer_internal", "bq"), ("quantizer", "q")):
+      qs = spec.get(key)
+      if qs is not None and qs["cls"] in G.KNOB_CLASSES and \
+          hasattr(layer, slot):
+        knob.append((spec["kind"], slot, qs["cls"], getattr(layer, slot)))
+  for kind, slot, cls, q in knob:
+    if not R.same_factor(float(q.qnoise_factor), want_f[-1]):
+      fails.append(("fit_final_factor", dict(base, layer=kind, slot=slot),
+                    "%s.%s (%s) carries %r after fit, schedule prescribes %r" %
+                    (kind, slot, cls, float(q.qnoise_factor), want_f[-1])))
+
+  # reference: the same model evaluated eagerly with every knob quantizer set
+  # to the prescribed factor through the update API
+  refs = {}
+  try:
+    for f in sorted(set(want_f + [0.0, 1.0])):
+      for _, _, _, q in knob:
+        q.update_qnoise_factor(f)
+      refs[f] = np.array(model(tf.constant(x), training=True).numpy())
+  except Exception as e:  # pylint: disable=broad-except
+    fails.append(("fit_raises", dict(core.exc_signature(e), **base),
+                  repr(e)[:300]))
+    return done()
+  sensitive = bool(np.max(np.abs(refs[0.0] - refs[1.0])) > 1e-2)
+  if sensitive:
+    labels.append("D:sensitive")
+  worst = 0.0
+  for k, ((cnt, y), f) in enumerate(zip(seen, want_f)):
+    ref = refs[f]
+    tol = 1e-5 + 1e-5 * np.abs(ref)
+    d = np.abs(y.astype(np.float64) - ref.astype(np.float64))
+    if (d > tol).any() or not np.isfinite(y).all():
+      i = int(np.argmax(d.reshape(-1)))
+      # which factor did the step use, if any of the references?
+      used = [g for g in sorted(refs) if np.allclose(y, refs[g], atol=1e-5)]
+      fails.append(("fit_step_output", dict(base, f=_fclass(f)),
+                    "training step %d: compiled step computed %r, prescribed "
+                    "factor %r gives %r (max diff %.3g; step output matches "
+                    "factor(s) %r)" % (k, y.reshape(-1)[i], f,
+                                       ref.reshape(-1)[i], float(d.max()),
+                                       used)))
+    else:
+      worst = max(worst, float(d.max()))
+  labels.append("D:maxdiff<=1e-6" if worst <= 1e-6 else "D:maxdiff<=1e-5")
+  return done(nontrivial=sensitive and
+              "D:factor_changes_after_first_step" in labels)
+
+
+def run_d(ctx):
+  import tensorflow as tf  # pylint: disable=g-import-not-at-top
+  cases = G.fit_cases(ctx.tier)
+  if ctx.idx == 0:
+    ctx.info["D_cases"] = len(cases)
+  for case in ctx.shard(cases):
+    for sc, sig, d in oracle_d(ctx, case):
+      ctx.fail(sc, sig, case, d)
+    tf.keras.backend.clear_session()
+
+
 class _Slice(object):
   """Gives a part of the check its own share of the worker's time budget (so
   a slow machine cannot starve the later parts); restores the budget after."""
@@ -925,17 +1183,19 @@ def _chunked(ctx, part, total, chunk, fn):
 def run(ctx):
   import tensorflow as tf  # pylint: disable=g-import-not-at-top
   quick = ctx.quick
-  with _Slice(ctx, 0.35, "A"):
+  with _Slice(ctx, 0.32, "A"):
     run_a(ctx)
   tf.keras.backend.clear_session()
   cfgs = G.lattice(ctx.tier)
-  with _Slice(ctx, 0.65, "B"):
+  with _Slice(ctx, 0.6, "B"):
     mb = make_machine_b(ctx, cfgs)
     _chunked(ctx, "B", (1200 if quick else 16000) // ctx.n + 1,
              20 if quick else 100,
              lambda n, nm: core.hyp_machine(
                  ctx, mb, n, step_count=12 if quick else 25, name="c07" + nm))
   tf.keras.backend.clear_session()
+  with _Slice(ctx, 0.65, "D"):
+    run_d(ctx)       # deterministic shard, always completed (a few fits)
   with _Slice(ctx, 1.0, "C"):
     mc = make_machine_c(ctx)
     _chunked(ctx, "C", (1600 if quick else 24000) // ctx.n + 1,
@@ -953,5 +1213,8 @@ def replay(ctx, case):
     replay_b(ctx, case)
   elif part == "C":
     replay_c(ctx, case)
+  elif part == "D":
+    for sc, sig, d in oracle_d(ctx, case):
+      ctx.fail(sc, sig, case, d)
   else:
     raise core.HarnessError("unknown part %r" % part)
